@@ -213,10 +213,8 @@ def vectors(rng, model, prog, H):
     # each *adjacent* pair; which operands a link compares only shows when a non-adjacent pair is ordered
     # differently), realised inside the limits where the supports of the operands overlap
     import itertools
-    for s in asserts[:3]:
+    for s in [a_ for a_ in asserts if len(a_["expr"]["operands"]) >= 3][:4]:
         operands = s["expr"]["operands"]
-        if len(operands) < 3:
-            continue
         slots = []
         for o in operands:
             obj = H[o["h"]] if isinstance(o, dict) else o
@@ -238,7 +236,7 @@ def vectors(rng, model, prog, H):
         pidx = sorted({sl[1] for sl in slots if sl[0] == "p"})
         combos = list(itertools.product(cands, repeat=len(pidx)))
         rng.shuffle(combos)
-        for combo in combos[:14]:
+        for combo in combos[:20]:
             v = list(base)
             for j, x in zip(pidx, combo):
                 v[j] = x
@@ -366,7 +364,7 @@ def run(ctx):
     for f in sorted((VERIF / "corpus" / "C03").glob("*.json")):
         c = json.loads(f.read_text())
         one_case(ctx, c["program"], [(c.get("kind", "corpus"), c["vector"])] if "vector" in c else None, label=f.name)
-    for _ in range(ctx.n(90, 1500)):
+    for _ in range(ctx.n(240, 2500)):
         prog = gen_comp.gen_program(ctx.rng, allow_pow=False)
         prog = add_assertions(ctx.rng, prog)
         one_case(ctx, prog)
